@@ -15,7 +15,7 @@ def r11_2_day_carry(ctx: Ctx) -> RuleResult:
     rr = RuleResult("R11.2", "every OffsetTime construction receives a nanosecond-of-day in [0, 24h) and offset seconds within +/-18h (carries suffice)", min_instances=8)
     groups = select(global_sweep(ctx), ["OffsetTime._ctor("])
     rr.states = ctx.cache.get("sweep_steps", 0)
-    decide(rr, groups, "R11.2", {})
+    decide(rr, groups, "R11.2", {}, ctx)
     return rr
 
 
